@@ -77,6 +77,11 @@ func (e *evictionState[Type]) evict(slot Type) []Event {
 			eventsToTrigger = append(eventsToTrigger, slotEvictedEvent)
 			e.evictionEvents.Delete(i)
 		}
+
+		// slot may be the largest value of Type: i++ would wrap around and i <= slot hold forever
+		if i == slot {
+			break
+		}
 	}
 
 	e.lastEvictedSlot = &slot
